@@ -38,12 +38,14 @@ VARIABLES
   goff,       \* tp -> committed group offset as written by group markers (-1 none)
   resolved,   \* record ids whose send() future completed (either way)
   ridInst,    \* record id -> instance that sent it
+  abErr,      \* instance -> name of the abortable error that put it into ABORTABLE_ERROR ("" none)
+  fatalCause, \* something that justifies a FATAL_ERROR happened (fencing, TRANSACTIONAL_ID_AUTHORIZATION_FAILED, ...)
   commitSeen, \* the coordinator accepted EndTxn(commit) since the last commit call started (the commit point)
   failedR,    \* record ids whose send() future completed with an error
   viol        \* name of the first violated clause that does not block the trace ("" none)
 
 tvars == <<tid, l, tstate, alive, calling, curTxn, outcome, ridTxn, accepted, openB, cstate, cparts, cepoch, log,
-           txnOff, goff, resolved, ridInst, failedR, commitSeen, viol>>
+           txnOff, goff, resolved, ridInst, failedR, commitSeen, abErr, fatalCause, viol>>
 
 Tr == Traces[tid]
 Ev == Tr[l]
@@ -64,7 +66,7 @@ TraceInit ==
   /\ log = [tp \in TPs |-> <<>>]
   /\ txnOff = <<>>
   /\ goff = [tp \in TPs |-> -1]
-  /\ resolved = {} /\ ridInst = <<>> /\ failedR = {} /\ commitSeen = FALSE /\ viol = ""
+  /\ resolved = {} /\ ridInst = <<>> /\ failedR = {} /\ commitSeen = FALSE /\ abErr = [i \in Insts |-> ""] /\ fatalCause = FALSE /\ viol = ""
 
 \* ---- C16: the API state machine ----------------------------------------------------------------
 Legal(op, st) ==
@@ -88,7 +90,7 @@ TCall ==
      /\ IF Ev.op = "send" THEN ridTxn' = Upd(ridTxn, Ev.rid, curTxn) /\ ridInst' = Upd(ridInst, Ev.rid, Ev.i)
         ELSE UNCHANGED <<ridTxn, ridInst>>
      /\ commitSeen' = IF Ev.op \in {"commit", "ctx_exit_ok"} /\ Legal(Ev.op, tstate[i]) THEN FALSE ELSE commitSeen
-  /\ Keep(<<tstate, alive, openB, cstate, cparts, cepoch, log, txnOff, goff, resolved, failedR, viol>>)
+  /\ Keep(<<tstate, alive, openB, cstate, cparts, cepoch, log, txnOff, goff, resolved, failedR, abErr, fatalCause, viol>>)
 
 TReturn ==
   /\ IsEvent("Return")
@@ -103,6 +105,11 @@ TReturn ==
              \* abort is the way out of an abortable error: it fails only when the producer is beyond recovery
              \* (an abort called BEFORE the error surfaced may raise it and has to be repeated -- named deviation)
              /\ (c.op \in {"abort", "ctx_exit_exc"} /\ c.st = "ABORTABLE_ERROR" /\ ~Ev.ok) => tstate[i] = "FATAL_ERROR"
+             \* C16: after an abortable error commit raises THAT error
+             /\ (c.op \in {"commit", "ctx_exit_ok"} /\ c.st = "ABORTABLE_ERROR" /\ tstate[i] = "ABORTABLE_ERROR") => Ev.err = abErr[i]
+             \* C07: when only retriable faults occur every transaction ends the way the application requested --
+             \* no call made in protocol order fails
+             /\ (Cfg.strict /\ c.legal) => Ev.ok
              /\ Ev.err # "CallTimeout"                                \* a call fails or succeeds, it never hangs
              /\ outcome' = IF c.op \in {"commit", "ctx_exit_ok"} /\ curTxn \in DOMAIN outcome
                            THEN [outcome EXCEPT ![curTxn] = IF (Ev.ok \/ (c.legal /\ commitSeen)) /\ @ = "open" THEN "committed"
@@ -121,7 +128,7 @@ TReturn ==
   /\ viol' = IF /\ viol = "" /\ Ev.ok /\ Ev.cid \in DOMAIN calling /\ calling[Ev.cid].op \in {"commit", "ctx_exit_ok"}
                  /\ curTxn \in DOMAIN accepted /\ accepted[curTxn] \cap failedR # {}
               THEN "CommitAfterFailedSend" ELSE viol
-  /\ Keep(<<tstate, curTxn, ridTxn, accepted, openB, cstate, cparts, cepoch, log, goff, resolved, ridInst, failedR, commitSeen>>)
+  /\ Keep(<<tstate, curTxn, ridTxn, accepted, openB, cstate, cparts, cepoch, log, goff, resolved, ridInst, failedR, commitSeen, abErr, fatalCause>>)
 
 \* C16 "a call out of order raises without any effect": the state machine does not move as the effect of
 \* an illegal call -- an (ok) API-driven transition needs a legal call in progress; sender-driven
@@ -130,10 +137,13 @@ ApiDriven(to) == to \in {"IN_TRANSACTION", "COMMITTING_TRANSACTION", "ABORTING_T
 TTState ==
   /\ IsEvent("TState")
   /\ (Ev.ok /\ ApiDriven(Ev.to)) => \E c \in DOMAIN calling : calling[c].legal
+  \* C16: only fatal conditions (fencing, sequence violation, transactional-id authorization) are fatal
+  /\ (Ev.ok /\ Ev.to = "FATAL_ERROR") => fatalCause
   /\ tstate' = [tstate EXCEPT ![Ev.i] = IF Ev.ok THEN Ev.to ELSE @]
+  /\ abErr' = IF Ev.ok /\ Ev.to \in {"READY", "FATAL_ERROR"} THEN [abErr EXCEPT ![Ev.i] = ""] ELSE abErr
   /\ outcome' = IF Ev.ok /\ Ev.to \in {"ABORTABLE_ERROR", "FATAL_ERROR"} /\ curTxn \in DOMAIN outcome /\ outcome[curTxn] = "open"
                 THEN [outcome EXCEPT ![curTxn] = "failed"] ELSE outcome
-  /\ Keep(<<alive, calling, curTxn, ridTxn, accepted, openB, cstate, cparts, cepoch, log, txnOff, goff, resolved, ridInst, failedR, commitSeen, viol>>)
+  /\ Keep(<<alive, calling, curTxn, ridTxn, accepted, openB, cstate, cparts, cepoch, log, txnOff, goff, resolved, ridInst, failedR, commitSeen, fatalCause, viol>>)
 
 \* ---- batches -----------------------------------------------------------------------------------------------
 TAppend ==
@@ -142,12 +152,12 @@ TAppend ==
   /\ \E c \in DOMAIN calling : calling[c].op = "send" /\ calling[c].legal   \* C16: an out-of-order send has no effect
   /\ accepted' = [accepted EXCEPT ![ridTxn[Ev.rid]] = @ \cup {Ev.rid}]
   /\ openB' = openB \cup {<<Ev.i, Ev.b>>}
-  /\ Keep(<<tstate, alive, calling, curTxn, outcome, ridTxn, cstate, cparts, cepoch, log, txnOff, goff, resolved, ridInst, failedR, commitSeen, viol>>)
+  /\ Keep(<<tstate, alive, calling, curTxn, outcome, ridTxn, cstate, cparts, cepoch, log, txnOff, goff, resolved, ridInst, failedR, commitSeen, abErr, fatalCause, viol>>)
 
 TDoneFail ==
   /\ (IsEvent("Done") \/ IsEvent("Fail"))
   /\ openB' = openB \ {<<Ev.i, Ev.b>>}
-  /\ Keep(<<tstate, alive, calling, curTxn, outcome, ridTxn, accepted, cstate, cparts, cepoch, log, txnOff, goff, resolved, ridInst, failedR, commitSeen, viol>>)
+  /\ Keep(<<tstate, alive, calling, curTxn, outcome, ridTxn, accepted, cstate, cparts, cepoch, log, txnOff, goff, resolved, ridInst, failedR, commitSeen, abErr, fatalCause, viol>>)
 
 \* ---- cluster -------------------------------------------------------------------------------------------------------
 \* C07: a transactional batch reaches a leader only for a partition the coordinator acknowledged
@@ -158,12 +168,12 @@ TBrokerApply ==
   /\ viol' = IF viol = "" /\ ~(Ev.tp \in cparts /\ cstate = "Ongoing" /\ Ev.epoch = cepoch)
              THEN "ProduceOnlyAfterAdded" ELSE viol
   /\ log' = [log EXCEPT ![Ev.tp] = Append(@, [k |-> "data", rids |-> Ev.rids])]
-  /\ Keep(<<tstate, alive, calling, curTxn, outcome, ridTxn, accepted, openB, cstate, cparts, cepoch, txnOff, goff, resolved, ridInst, failedR, commitSeen>>)
+  /\ Keep(<<tstate, alive, calling, curTxn, outcome, ridTxn, accepted, openB, cstate, cparts, cepoch, txnOff, goff, resolved, ridInst, failedR, commitSeen, abErr, fatalCause>>)
 
 TBrokerOther ==
-  /\ (IsEvent("BrokerReject") \/ IsEvent("BrokerDup") \/ IsEvent("Fault") \/ IsEvent("NewInstance")
+  /\ (IsEvent("BrokerReject") \/ IsEvent("BrokerDup") \/ IsEvent("NewInstance")
       \/ IsEvent("AddOffsetsReply") \/ IsEvent("TxnOffsetCommitReply") \/ IsEvent("CoordinatorMoves"))
-  /\ Keep(<<tstate, alive, calling, curTxn, outcome, ridTxn, accepted, openB, cstate, cparts, cepoch, log, txnOff, goff, resolved, ridInst, failedR, commitSeen, viol>>)
+  /\ Keep(<<tstate, alive, calling, curTxn, outcome, ridTxn, accepted, openB, cstate, cparts, cepoch, log, txnOff, goff, resolved, ridInst, failedR, commitSeen, abErr, fatalCause, viol>>)
 
 \* a send() future completes; successfully only for a record that is in a partition log
 InLog(rid) == \E tp \in TPs : \E j \in 1..Len(log[tp]) : log[tp][j].k = "data" /\ rid \in Range(log[tp][j].rids)
@@ -172,19 +182,34 @@ TResolved ==
   /\ Ev.k = "ok" => InLog(Ev.rid)
   /\ resolved' = resolved \cup {Ev.rid}
   /\ failedR' = IF Ev.k = "ok" THEN failedR ELSE failedR \cup {Ev.rid}
-  /\ Keep(<<tstate, alive, calling, curTxn, outcome, ridTxn, accepted, openB, cstate, cparts, cepoch, log, txnOff, goff, ridInst, commitSeen, viol>>)
+  /\ Keep(<<tstate, alive, calling, curTxn, outcome, ridTxn, accepted, openB, cstate, cparts, cepoch, log, txnOff, goff, ridInst, commitSeen, abErr, fatalCause, viol>>)
 
 \* C16: after a fatal error nothing more is sent on behalf of the transaction
 TxnApis == {"ProduceRequest", "AddPartitionsToTxnRequest", "AddOffsetsToTxnRequest", "TxnOffsetCommitRequest", "EndTxnRequest"}
 TClientSend ==
   /\ IsEvent("ClientSend")
   /\ Ev.api \in TxnApis => tstate[Ev.i] # "FATAL_ERROR"
-  /\ Keep(<<tstate, alive, calling, curTxn, outcome, ridTxn, accepted, openB, cstate, cparts, cepoch, log, txnOff, goff, resolved, ridInst, failedR, commitSeen, viol>>)
+  /\ Keep(<<tstate, alive, calling, curTxn, outcome, ridTxn, accepted, openB, cstate, cparts, cepoch, log, txnOff, goff, resolved, ridInst, failedR, commitSeen, abErr, fatalCause, viol>>)
+
+FatalCodes == {45, 53, 47, 48, 49}     \* sequence violation, transactional-id authorization, (epoch / txn-state / id-mapping)
+TFault ==
+  /\ IsEvent("Fault")
+  /\ fatalCause' = (fatalCause \/ (Ev.kind = "error" /\ Ev.code \in FatalCodes))
+  /\ Keep(<<tstate, alive, calling, curTxn, outcome, ridTxn, accepted, openB, cstate, cparts, cepoch, log, txnOff, goff, resolved, ridInst, failedR, commitSeen, abErr, viol>>)
+
+TAbortableError ==
+  /\ IsEvent("AbortableError")
+  /\ abErr' = [abErr EXCEPT ![Ev.i] = Ev.err]
+  /\ Keep(<<tstate, alive, calling, curTxn, outcome, ridTxn, accepted, openB, cstate, cparts, cepoch, log, txnOff, goff, resolved, ridInst, failedR, commitSeen, fatalCause, viol>>)
 
 TInitPid ==
   /\ IsEvent("InitPidReply")
   /\ cepoch' = IF Ev.code = 0 THEN Ev.epoch ELSE cepoch
-  /\ Keep(<<tstate, alive, calling, curTxn, outcome, ridTxn, accepted, openB, cstate, cparts, log, txnOff, goff, resolved, ridInst, failedR, commitSeen, viol>>)
+  \* an epoch bump fences whoever still uses the previous epoch
+  /\ fatalCause' = (fatalCause \/ (Ev.code = 0 /\ cepoch >= 0 /\ Ev.epoch > cepoch))
+  \* once the next instance has its epoch nothing of the dead one can be applied any more: what is still in doubt failed
+  /\ outcome' = [n \in DOMAIN outcome |-> IF outcome[n] = "indoubt" /\ Ev.code = 0 THEN "failed" ELSE outcome[n]]
+  /\ Keep(<<tstate, alive, calling, curTxn, ridTxn, accepted, openB, cstate, cparts, log, txnOff, goff, resolved, ridInst, failedR, commitSeen, abErr, viol>>)
 
 TAddPartitions ==
   /\ IsEvent("AddPartitionsReply")
@@ -192,35 +217,40 @@ TAddPartitions ==
      THEN /\ cstate \in {"Empty", "Ongoing"}
           /\ cstate' = "Ongoing" /\ cparts' = cparts \cup Range(Ev.tps)
      ELSE UNCHANGED <<cstate, cparts>>
-  /\ Keep(<<tstate, alive, calling, curTxn, outcome, ridTxn, accepted, openB, cepoch, log, txnOff, goff, resolved, ridInst, failedR, commitSeen, viol>>)
+  /\ Keep(<<tstate, alive, calling, curTxn, outcome, ridTxn, accepted, openB, cepoch, log, txnOff, goff, resolved, ridInst, failedR, commitSeen, abErr, fatalCause, viol>>)
 
 \* C07: EndTxn reaches the coordinator only when no batch of the transaction is queued or in flight
 TEndTxnReply ==
   /\ IsEvent("EndTxnReply")
   /\ \A x \in openB : x[1] # Ev.i
-  /\ Keep(<<tstate, alive, calling, curTxn, outcome, ridTxn, accepted, openB, cstate, cparts, cepoch, log, txnOff, goff, resolved, ridInst, failedR, commitSeen, viol>>)
+  /\ Keep(<<tstate, alive, calling, curTxn, outcome, ridTxn, accepted, openB, cstate, cparts, cepoch, log, txnOff, goff, resolved, ridInst, failedR, commitSeen, abErr, fatalCause, viol>>)
 
 TPrepare ==
   /\ IsEvent("TxnPrepare")
   /\ cstate' = IF Ev.commit THEN "PrepareCommit" ELSE "PrepareAbort"
   /\ cepoch' = Ev.epoch
   /\ commitSeen' = (commitSeen \/ Ev.commit)
-  /\ Keep(<<tstate, alive, calling, curTxn, outcome, ridTxn, accepted, openB, cparts, log, txnOff, goff, resolved, ridInst, failedR, viol>>)
+  /\ fatalCause' = (fatalCause \/ Ev.why = "fenced")
+  \* the EndTxn a killed producer had put on the wire decides its in-doubt transaction; so does the fencing abort
+  /\ outcome' = [n \in DOMAIN outcome |-> IF outcome[n] = "indoubt"
+                                           THEN (IF Ev.commit /\ Ev.why = "EndTxn" THEN "committed" ELSE "failed")
+                                           ELSE outcome[n]]
+  /\ Keep(<<tstate, alive, calling, curTxn, ridTxn, accepted, openB, cparts, log, txnOff, goff, resolved, ridInst, failedR, abErr, viol>>)
 
 TWriteMarker ==
   /\ IsEvent("WriteMarker")
   /\ log' = [log EXCEPT ![Ev.tp] = Append(@, [k |-> IF Ev.commit THEN "commit" ELSE "abort", rids |-> <<>>])]
-  /\ Keep(<<tstate, alive, calling, curTxn, outcome, ridTxn, accepted, openB, cstate, cparts, cepoch, txnOff, goff, resolved, ridInst, failedR, commitSeen, viol>>)
+  /\ Keep(<<tstate, alive, calling, curTxn, outcome, ridTxn, accepted, openB, cstate, cparts, cepoch, txnOff, goff, resolved, ridInst, failedR, commitSeen, abErr, fatalCause, viol>>)
 
 TGroupMarker ==
   /\ IsEvent("GroupMarker")
   /\ goff' = IF Ev.commit THEN [tp \in TPs |-> IF tp \in DOMAIN Ev.offsets THEN Ev.offsets[tp] ELSE goff[tp]] ELSE goff
-  /\ Keep(<<tstate, alive, calling, curTxn, outcome, ridTxn, accepted, openB, cstate, cparts, cepoch, log, txnOff, resolved, ridInst, failedR, commitSeen, viol>>)
+  /\ Keep(<<tstate, alive, calling, curTxn, outcome, ridTxn, accepted, openB, cstate, cparts, cepoch, log, txnOff, resolved, ridInst, failedR, commitSeen, abErr, fatalCause, viol>>)
 
 TComplete ==
   /\ IsEvent("TxnComplete")
   /\ cstate' = "Empty" /\ cparts' = {}
-  /\ Keep(<<tstate, alive, calling, curTxn, outcome, ridTxn, accepted, openB, cepoch, log, txnOff, goff, resolved, ridInst, failedR, commitSeen, viol>>)
+  /\ Keep(<<tstate, alive, calling, curTxn, outcome, ridTxn, accepted, openB, cepoch, log, txnOff, goff, resolved, ridInst, failedR, commitSeen, abErr, fatalCause, viol>>)
 
 TKilled ==
   /\ IsEvent("Killed")
@@ -231,10 +261,11 @@ TKilled ==
   \* coordinator's PrepareCommit); any other open transaction of a dead producer must end aborted
   /\ outcome' = IF curTxn \in DOMAIN outcome /\ outcome[curTxn] = "open"
                 THEN [outcome EXCEPT ![curTxn] =
-                        IF commitSeen /\ \E c \in DOMAIN calling : calling[c].legal /\ calling[c].op \in {"commit", "ctx_exit_ok"}
-                        THEN "committed" ELSE "failed"]
+                        IF \E c \in DOMAIN calling : calling[c].legal /\ calling[c].op \in {"commit", "ctx_exit_ok"}
+                        THEN (IF commitSeen THEN "committed" ELSE "indoubt")   \* its EndTxn may still be on the wire
+                        ELSE "failed"]
                 ELSE outcome
-  /\ Keep(<<tstate, curTxn, ridTxn, accepted, cstate, cparts, cepoch, log, txnOff, goff, resolved, ridInst, failedR, commitSeen, viol>>)
+  /\ Keep(<<tstate, curTxn, ridTxn, accepted, cstate, cparts, cepoch, log, txnOff, goff, resolved, ridInst, failedR, commitSeen, abErr, fatalCause, viol>>)
 
 \* ---- the read-committed view at the end -------------------------------------------------------------------------------
 MarkerAfter(tp, i) ==
@@ -248,7 +279,7 @@ TEnd ==
   /\ IsEvent("End")
   /\ \A n \in DOMAIN outcome :
        /\ outcome[n] = "committed" => accepted[n] \subseteq VisibleRC             \* all of a committed transaction
-       /\ outcome[n] \in {"aborted", "failed"} => accepted[n] \cap VisibleRC = {}  \* none of an aborted / failed one
+       /\ outcome[n] \in {"aborted", "failed", "indoubt"} => accepted[n] \cap VisibleRC = {}  \* none of an aborted / failed one
   \* nothing left hanging: unless the last instance still has a transaction open, every
   \* transactional record has its marker (otherwise the partition's LSO is stuck for ever)
   \* (a program that walks away from an abortable error without abort, or a producer in a fatal state, leaves it to the
@@ -262,11 +293,11 @@ TEnd ==
        goff[tp] = IF ns = {} THEN -1 ELSE txnOff[CHOOSE n \in ns : \A m \in ns : m <= n][tp]
   \* C16/C02: no send() future of a live instance is left pending (in particular after a fatal error)
   /\ \A n \in DOMAIN accepted : \A r \in accepted[n] : alive[ridInst[r]] => r \in resolved
-  /\ Keep(<<tstate, alive, calling, curTxn, outcome, ridTxn, accepted, openB, cstate, cparts, cepoch, log, txnOff, goff, resolved, ridInst, failedR, commitSeen, viol>>)
+  /\ Keep(<<tstate, alive, calling, curTxn, outcome, ridTxn, accepted, openB, cstate, cparts, cepoch, log, txnOff, goff, resolved, ridInst, failedR, commitSeen, abErr, fatalCause, viol>>)
 
 TraceNext ==
   \/ TCall \/ TReturn \/ TTState \/ TAppend \/ TDoneFail \/ TBrokerApply \/ TBrokerOther \/ TInitPid \/ TAddPartitions
-  \/ TResolved \/ TClientSend
+  \/ TResolved \/ TClientSend \/ TFault \/ TAbortableError
   \/ TEndTxnReply \/ TPrepare \/ TWriteMarker \/ TGroupMarker \/ TComplete \/ TKilled \/ TEnd
 
 TraceSpec == TraceInit /\ [][TraceNext]_tvars
